@@ -642,3 +642,34 @@ fn c26_escape_inverse_alphabet() {
     }
 }
 }
+
+stubs! {
+//@ props=C23 kind=bounded bound="20 listed concrete truncation patterns of JSON_ARRAY / JSON_OBJECT / ARRAY keys (symbolic nested input of <= 4 bytes timed out at 25 min)" timeout=3000 tier=manual
+/// recursive decoders on listed truncation patterns: decode_key on an array / json-array / json-object key
+/// cut at every structural position (after the prefix, after an element, after a separator, after an object
+/// member name) returns Ok((_, k)) with k <= len, or Err — no panic, no OOB
+#[kani::proof]
+#[kani::unwind(12)]
+fn c23_decode_key_nested_truncations() {
+    const N: usize = 20;
+    const PAT: [([u8; 5], usize); N] = [
+        ([0x55, 0, 0, 0, 0], 1), ([0x55, 0x00, 0, 0, 0], 2), ([0x55, 0x50, 0, 0, 0], 2), ([0x55, 0x50, 0x00, 0, 0], 3),
+        ([0x55, 0x50, 0x01, 0, 0], 3), ([0x55, 0x50, 0x01, 0x50, 0], 4), ([0x55, 0x50, 0x01, 0x50, 0x00], 5),
+        ([0x56, 0, 0, 0, 0], 1), ([0x56, 0x00, 0, 0, 0], 2), ([0x56, 0x61, 0x00, 0x00, 0], 4), ([0x56, 0x00, 0x00, 0, 0], 3),
+        ([0x56, 0x00, 0x00, 0x50, 0], 4), ([0x56, 0x00, 0x00, 0x50, 0x00], 5), ([0x56, 0x00, 0x00, 0x50, 0x01], 5),
+        ([0x60, 0, 0, 0, 0], 1), ([0x60, 0x00, 0, 0, 0], 2), ([0x60, 0x01, 0, 0, 0], 2), ([0x60, 0x01, 0x00, 0, 0], 3),
+        ([0x60, 0x01, 0x01, 0, 0], 3), ([0x60, 0x01, 0x01, 0x01, 0x00], 5),
+    ];
+    assert!(type_prefix::JSON_ARRAY == 0x55 && type_prefix::JSON_OBJECT == 0x56 && type_prefix::ARRAY == 0x60
+        && type_prefix::JSON_NULL == 0x50 && type_prefix::NULL == 0x01);
+    let mut i = 0;
+    while i < N {
+        let (b, l) = PAT[i];
+        if let Some((v, k)) = vs::is_ok_forget(decode_key(&b[..l])) {
+            assert!(k >= 1 && k <= l);
+            core::mem::forget(v);
+        }
+        i += 1;
+    }
+}
+}
